@@ -65,3 +65,17 @@ Proof.
   rewrite verdict_tie. split; intro H; rewrite H; [reflexivity|].
   destruct (filter _ (completed s)); cbn; intros [E|[E|[]]]; discriminate E.
 Qed.
+
+(* the converse: when the translated skip test does not hold the dequeued operation is not skipped -- the event the step
+   appends is its start or its failed launch, never a skip *)
+Lemma no_skip_tie : forall p jobs stop orc s,
+  let o := fst (fst (dequeue s)) in
+  gen_skips (forallb (succeeded s) (exe_deps p o)) = false ->
+  forall tr', trace (launch_one p jobs stop orc s) <> ESkip o :: tr'.
+Proof.
+  intros p jobs stop orc s. unfold launch_one. destruct (dequeue s) as [[o rS] rP]. cbn [fst].
+  unfold gen_skips. intro H. rewrite H.
+  destruct (launch_fails orc o).
+  - destruct stop; unfold process_finished, set_stopped, mark, take, upd; cbn [trace]; intros tr' E; discriminate E.
+  - destruct (op_sync (opi p o)); unfold start_sync, start_proc, mark, take, upd; cbn [trace]; intros tr' E; discriminate E.
+Qed.
